@@ -710,6 +710,22 @@ def law_sweep(ctx, mc, atm, only=None):
             tol = 8 * (n + 64) * EPS
             case = {"shape": shape, "axis": axis, "p": small(p), "t": small(T), "q_saturated": small(qs)}
             try:
+                # the caller's own float64 arrays, handed over as they are and used again: the function must leave them alone
+                # and answer the same when asked again (a second call on a q it overwrote would report saturation)
+                # (an unsaturated profile: overwriting q with the saturated one would not show on the saturated profile itself)
+                q_ref = 0.37 * np.asarray(qs, dtype=np.float64)
+                q_own, p_own, T_own = q_ref.copy(), np.array(p, dtype=np.float64), np.array(T, dtype=np.float64)
+                first = np.asarray(call(atm.column_relative_humidity, q_own, p_own, T_own, **kw))
+                for nm_, own_, ref_ in (("q", q_own, q_ref), ("p", p_own, p), ("T", T_own, T)):
+                    if not np.array_equal(own_, ref_):
+                        bad("column_relative_humidity:arguments-modified", f"column_relative_humidity overwrote the float64 array handed "
+                            f"in as {nm_} (shape {tuple(shape)}, axis {axis}): it held {small(ref_)}, now {small(own_)}", case)
+                        break
+                else:
+                    again = np.asarray(call(atm.column_relative_humidity, q_own, p_own, T_own, **kw))
+                    if first.shape != again.shape or not np.array_equal(first, again, equal_nan=True):
+                        bad("column_relative_humidity:repeated-call", f"two consecutive calls of column_relative_humidity on the same "
+                            f"arrays give {small(first)} and {small(again)}", case)
                 one = np.asarray(call(atm.column_relative_humidity, qs.copy(), p, T.copy(), **kw))
                 evals[0] += 3
                 if one.shape != want_shape or not np.all(np.abs(one - 1) <= tol):
